@@ -181,11 +181,13 @@ def extract():
         raise ExtractError("RelVarNameAssigner: the regenerate-until-unused loop is no longer the modelled one")
     if "let outer_names = std::mem::take(&mut self.relation_instance_names); let res = self.fold_sql_transforms(pipeline)?; self.relation_instance_names = outer_names;" not in norm(pp):
         raise ExtractError("RelVarNameAssigner: the scope of relation_instance_names (one atomic pipeline) changed")
-    # The repair of F33b (fixes/F33b-*.diff) gives the column generator a reserved set like the table generator's.  Both shapes
-    # of the source are recognised; which one it is goes into GenIdentDialect.col_names_reserved (the model's `reserved`
-    # for columns is [] without the repair).
+    # The repair of F33b (6cdd79f) gives the column generator a reserved set like the table generator's.  Only the repaired
+    # shape is accepted (GenIdentDialect.col_names_reserved = true, an obligation of Props/C09.v); the unrepaired shape is still
+    # described below so that the error message says what is missing.
     repaired = re.search(r"\breserved_column_names\b", cx) is not None
     info["col_names_reserved"] = repaired
+    if not repaired:
+        raise ExtractError("the column-name generator no longer skips reserved column names (repair 6cdd79f of finding F33b is gone)")
     ENSURE_HEAD = ("let decl = &self.column_decls[&cid]; if let ColumnDecl::RelationColumn(_, _, col) = decl { match col { "
                    "RelationColumn::Single(Some(name)) => { let entry = self.column_names.entry(cid); return Some(entry.or_insert_with(|| name.clone())); } "
                    "RelationColumn::Wildcard => return None, _ => {} } } ")
